@@ -337,7 +337,7 @@ func (c *Chain) PickSigner(m *model.ParliaModel) *Validator {
 		}
 		return false
 	}
-	switch c.Ch.Pick([]int{5, 2, 3}) {
+	switch c.Ch.Pick([]int{7, 1, 2}) {
 	case 0: // the in-turn validator when it may seal
 		if t, ok := m.InTurnAt(number); ok && has(t) {
 			return c.byAddr[t]
@@ -366,7 +366,7 @@ func (c *Chain) Draft(m *model.ParliaModel, signer *Validator) *bsctypes.Header 
 		ReceiptHash: c.rnd(32),
 		Bloom:       c.rnd(256),
 		Difficulty:  model.ParliaNoTurn,
-		Height:      clienttypes.NewHeight(0, number),
+		Height:      clienttypes.NewHeight(parent.Height.RevisionNumber, number),
 		Time:        parent.Time + BlockSeconds,
 		MixDigest:   make([]byte, 32),
 		Nonce:       make([]byte, 8),
